@@ -140,6 +140,9 @@ func runC08(c *Ctx) {
 
 	// ------------------------------------------------------------------ (4)
 	s.checkStopSetsFlagFirst(c, "stop-is-no-restart")
+	s.checkRefusalMatchesPendingStop(c, "stopped-pending-never-launches")
+
+	s.checkStartRefusedWhenRegistered(c, "start-refused-when-registered")
 
 	// ------------------------------------------------------------------ (5)
 	rUnknown := c.Rule("unknown-name-no-effect", "in StartProcess, StopProcess and ScaleProcess the branch on which the name is not found in project.Processes is reached without a spawn, a stop or a mutation of the runner's maps, performs none afterwards and returns a non-nil error")
@@ -237,3 +240,57 @@ func identityGuarded(in ssa.Instruction, s *Sel) bool {
 }
 
 var _ types.Type
+
+// checkStartRefusedWhenRegistered (C08, C09).
+func (s *Sel) checkStartRefusedWhenRegistered(c *Ctx, ruleID string) {
+	p := c.P
+	spawnDeep := p.Deep(CallOfFn("Spawn", s.Spawns...))
+	lookupRun := p.Deep(MapLookupOn("lookup runningProcesses", s.FRunning))
+	rReg := c.Rule(ruleID, "in StartProcess, on the edge on which the registry lookup returned an instance (non-nil), no spawn is reachable and every return carries an error - whatever state that instance is in (running, restarting back-off, pending on dependencies, terminating)")
+	{
+		f := s.apiMethod("StartProcess")
+		n := 0
+		for _, b := range f.Blocks {
+			ifi := IfOf(b)
+			if ifi == nil {
+				continue
+			}
+			cmp, ok := CondCmp(ifi.Cond)
+			if !ok || (cmp.Op != token.NEQ && cmp.Op != token.EQL) {
+				continue
+			}
+			var subj ssa.Value
+			if IsNilConst(cmp.Y) {
+				subj = cmp.X
+			} else if IsNilConst(cmp.X) {
+				subj = cmp.Y
+			} else {
+				continue
+			}
+			call, isCall := stripConv(subj).(*ssa.Call)
+			if !isCall || !isPtrTo(call.Type(), s.Process) || !lookupRun.MayAt(call) {
+				continue
+			}
+			n++
+			nonNil := 0
+			if cmp.Op == token.EQL {
+				nonNil = 1
+			}
+			vis := Reach([]Pt{{b.Succs[nonNil], 0}}, nil, nil)
+			bad := false
+			for in := range vis {
+				if cc, isC := in.(*ssa.Call); isC && spawnDeep.MayAt(cc) {
+					bad = true
+				}
+				if ret, isRet := in.(*ssa.Return); isRet && IsNilConst(ret.Results[len(ret.Results)-1]) {
+					bad = true
+				}
+			}
+			c.Check(!bad, rReg, p.FuncKey(f), p.InstrPos(ifi), "a registered instance always refuses the start", "StartProcess can spawn a second supervisor although an instance of the process is registered (e.g. while it is in its restart back-off, pending or terminating): two commands of the same replica end up alive and share one state record")
+		}
+		if n == 0 {
+			c.Bad(rReg, p.FuncKey(f)+":no-test", FirstPos(p, f), "StartProcess does not test the registry lookup against nil")
+		}
+	}
+
+}
